@@ -166,6 +166,17 @@ def judge(chk, case, st, label):
         chk.violation('flag-at-boundary|' + sigtag, 'error flag set when control returned to the embedder in %s' % label, base)
 
 
+def _outside_model(case):
+    """a program the reference model declines (e.g. its fault sits in a try/catch region, a recorded defect) is not judged, whatever the VM did"""
+    try:
+        m.run_program(case['prog'], decline_fault_in_try=case.get('avoid_try', False))
+    except m.ModelDeclines:
+        return True
+    except Exception:
+        return True
+    return False
+
+
 def run_singles(chk, runner, cases):
     items = [[{'op': 'run', 'vm': 0, 'src': c['src'], 'path': '/vh/prog.sqf', 'reset_ts': True, 'mon': True}] for c in cases]
     # every program in its own fresh VM: a leaked error state would otherwise blur which program is at fault (histories test leakage)
@@ -176,6 +187,10 @@ def run_singles(chk, runner, cases):
         chk.sig('%s|%s|%s|%s' % (c['kind'], c['position'], c['handled'], len(c['prog'])))
         chk.counters.setdefault('pairs', set()).add((c['kind'], c['position']))
         if isinstance(r, core.Death):
+            if _outside_model(c):
+                chk.inconclusive += 1
+                chk.count('model_declined')
+                continue
             chk.death_is_violation(r, 'program #%d (%s at %s)' % (i, c['kind'], c['position']), {'src': c['src']})
             continue
         judge(chk, c, r[-1], 'program #%d (%s at %s, handled=%s)' % (i, c['kind'], c['position'], c['handled']))
@@ -201,6 +216,9 @@ def run_histories(chk, runner, nh, tier, avoid):
         chk.evaluations += 1
         chk.sig('history|' + '|'.join('%s/%s/%s' % (c['kind'], c['position'], c['handled']) for c in cs))
         if isinstance(r, core.Death):
+            if any(_outside_model(c) for c in cs):
+                chk.inconclusive += 1
+                continue
             chk.death_is_violation(r, 'history #%d' % h, {'srcs': [c['src'] for c in cs]})
             continue
         for j, (c, st) in enumerate(zip(cs, r[1:])):
